@@ -62,6 +62,7 @@ fn main() {
         let def = defs.iter().find(|d| d.id == pid).unwrap_or_else(|| infra_exit(&format!("unknown property {}", pid)));
         let ctx = Ctx::new(def.id, tier, seed, def.level);
         ctx.replay_known(&|c, i, s| (def.replay)(c, i, s));
+        ctx.replay_regress(&|c, i, s| (def.replay)(c, i, s));
         (def.run)(&ctx);
         ctx.finish()
     });
